@@ -14,6 +14,7 @@ use std::sync::Arc;
 //@include prelude/anyhow.rs
 //@include prelude/tstr_mod.rs
 //@include prelude/regex.rs
+//@include prelude/aff_axioms_mod.rs
 
 verus! {
 
@@ -22,6 +23,7 @@ verus! {
 //@include prelude/domain.rs
 //@include prelude/block_fns.rs
 //@include prelude/aff_strings.rs
+//@include prelude/aff_maps.rs
 
 // ---- specification of one reference list (from properties C01 / C13) ---------------------------------
 /// the first ':' of `t` is at char index `i`
@@ -163,15 +165,20 @@ impl AffectsValidator {
 }
 
 // ---- V6c: the diagnostic ---------------------------------------------------------------------------------
+/// the machine-readable payload of `v` encodes an `AffectsViolation` naming (file, name)
+pub open spec fn names_reference(v: Violation, affected_file: PathBuf, affected_name: Seq<char>) -> bool {
+    exists|d: serde_json::Value, payload: AffectsViolation| v.data == Some(d) && #[trigger] serde_json::value_encodes(d, payload)
+        && path_owned(payload.affected_block_file_path) == affected_file && payload.affected_block_name@ == affected_name
+}
+
 /// C10: "for drift ... violations the range spans exactly the block's start tag, from its `<` to its `>`";
 /// code "affects"; severity of the modified block; the payload names the reference that is not modified.
-pub open spec fn affects_violation_ok(v: Violation, b: Block, affected_file: &Path, affected_name: Seq<char>) -> bool {
+pub open spec fn affects_violation_ok(v: Violation, b: Block, affected_file: PathBuf, affected_name: Seq<char>) -> bool {
     &&& v.range.start == b.start_tag_position_range@.start
     &&& v.range.end == b.start_tag_position_range@.end
     &&& v.code@ == "affects"@
     &&& Ok::<BlockSeverity, anyhow::Error>(v.severity) == severity_spec(b)
-    &&& exists|d: serde_json::Value, payload: AffectsViolation| v.data == Some(d) && #[trigger] serde_json::value_encodes(d, payload)
-            && payload.affected_block_file_path == affected_file && payload.affected_block_name@ == affected_name
+    &&& names_reference(v, affected_file, affected_name)
 }
 
 //@unit id=V6c file=src/validators/affects.rs fn=create_violation ret=r
@@ -180,7 +187,7 @@ pub open spec fn affects_violation_ok(v: Violation, b: Block, affected_file: &Pa
         r matches Ok(v) ==> v.range.start == modified_block.start_tag_position_range@.start // [V6c.post.range_is_start_tag]
             && v.range.end == modified_block.start_tag_position_range@.end,
         r matches Ok(v) ==> v.code@ == "affects"@ && Ok::<BlockSeverity, anyhow::Error>(v.severity) == severity_spec(*modified_block), // [V6c.post.code_and_severity]
-        r matches Ok(v) ==> affects_violation_ok(v, *modified_block, affected_block_file_path, affected_block_name@), // [V6c.post.payload]
+        r matches Ok(v) ==> affects_violation_ok(v, *modified_block, path_owned(affected_block_file_path), affected_block_name@), // [V6c.post.payload]
         severity_spec(*modified_block) is Err ==> r is Err, // [V6c.post.bad_severity_is_err]
 //@macro rule=E1 name=format to=<<verif_message()>>
 //@dropcall rule=E1 name=context optional=1
@@ -199,6 +206,427 @@ impl AffectsValidatorDetector {
             r matches Ok(o) ==> (o is Some <==> (block_with_context.is_content_modified // [V6d.post.fires_iff_modified_and_affects]
                 && attr_view(block_with_context.block.attributes@, "affects"@) is Some)),
             r matches Ok(Some(t)) ==> t is Sync, // [V6d.post.sync_validator]
+//@end
+}
+
+// ---- V6: specification, from the statement of C01 (not from the code) ---------------------------------
+/// block `b` is modified and its `name` attribute is `name`
+pub open spec fn named_modified(b: BlockWithContext, name: Seq<char>) -> bool {
+    b.is_content_modified && attr_view(b.block.attributes@, "name"@) == Some(name)
+}
+
+/// Mod: "(file, name) has a modified block of that name" — the context has, in `file`, a block with
+/// `is_content_modified` whose name attribute is `name`. Unmodified blocks satisfy nothing.
+pub open spec fn in_mod(ctx: ValidationContext, file: PathBuf, name: Seq<char>) -> bool {
+    ctx.blocks@.contains_key(file) && exists|j: int| 0 <= j < ctx.blocks@[file].blocks_with_context@.len()
+        && named_modified(#[trigger] ctx.blocks@[file].blocks_with_context@[j], name)
+}
+
+/// "a modified block that declares `affects`". Unmodified blocks contribute nothing (not even parsed).
+pub open spec fn declares_affects(b: BlockWithContext) -> bool {
+    b.is_content_modified && attr_view(b.block.attributes@, "affects"@) is Some
+}
+
+pub open spec fn affects_value(b: BlockWithContext) -> Seq<char> {
+    attr_view(b.block.attributes@, "affects"@).unwrap()
+}
+
+/// the (file, name) the i-th reference of `value` points to, for a block that lives in file `own`
+pub open spec fn ref_target(value: Seq<char>, i: int, own: PathBuf) -> (PathBuf, Seq<char>) {
+    let r = ref_of_piece(split_comma_spec(value)[i]).unwrap();
+    (match r.0 { Some(p) => p, None => own }, r.1)
+}
+
+/// reference `i` of block `b` (which lives in file `f`) "has no modified block of that name"
+pub open spec fn unsatisfied(ctx: ValidationContext, f: PathBuf, b: BlockWithContext, i: int) -> bool {
+    !in_mod(ctx, ref_target(affects_value(b), i, f).0, ref_target(affects_value(b), i, f).1)
+}
+
+/// the unsatisfied references among the first `n` references of block `j` of file `f`, in order,
+/// as (block index, reference index)
+pub open spec fn block_expected(ctx: ValidationContext, f: PathBuf, fb: FileBlocks, j: int, n: int) -> Seq<(int, int)>
+    decreases n
+{
+    if n <= 0 {
+        Seq::empty()
+    } else if unsatisfied(ctx, f, fb.blocks_with_context@[j], n - 1) {
+        block_expected(ctx, f, fb, j, n - 1).push((j, n - 1))
+    } else {
+        block_expected(ctx, f, fb, j, n - 1)
+    }
+}
+
+/// everything block `j` contributes
+pub open spec fn block_all(ctx: ValidationContext, f: PathBuf, fb: FileBlocks, j: int) -> Seq<(int, int)> {
+    if declares_affects(fb.blocks_with_context@[j]) {
+        block_expected(ctx, f, fb, j, split_comma_spec(affects_value(fb.blocks_with_context@[j])).len() as int)
+    } else {
+        Seq::empty()
+    }
+}
+
+/// everything the first `m` blocks of file `f` contribute
+pub open spec fn file_expected(ctx: ValidationContext, f: PathBuf, fb: FileBlocks, m: int) -> Seq<(int, int)>
+    decreases m
+{
+    if m <= 0 { Seq::empty() } else { file_expected(ctx, f, fb, m - 1) + block_all(ctx, f, fb, m - 1) }
+}
+
+/// `v` is THE violation for reference `o.1` of block `o.0` of file `f`: range = that block's start tag
+/// (C10), severity of that block, payload = the (file, name) the reference points to
+pub open spec fn viol_for(v: Violation, f: PathBuf, fb: FileBlocks, o: (int, int)) -> bool {
+    let b = fb.blocks_with_context@[o.0];
+    affects_violation_ok(v, b.block, ref_target(affects_value(b), o.1, f).0, ref_target(affects_value(b), o.1, f).1)
+}
+
+/// the list filed under `f` is, entry by entry, one violation per expected (block, reference)
+pub open spec fn list_ok(vs: Seq<Violation>, exp: Seq<(int, int)>, f: PathBuf, fb: FileBlocks) -> bool {
+    vs.len() == exp.len() && forall|k: int| 0 <= k < vs.len() ==> viol_for(#[trigger] vs[k], f, fb, exp[k])
+}
+
+/// C13: some modified block of the run has an `affects` reference without a colon
+pub open spec fn has_malformed_reference(ctx: ValidationContext) -> bool {
+    exists|f: PathBuf, j: int| ctx.blocks@.contains_key(f) && 0 <= j < ctx.blocks@[f].blocks_with_context@.len()
+        && declares_affects(#[trigger] ctx.blocks@[f].blocks_with_context@[j])
+        && refs_malformed(affects_value(ctx.blocks@[f].blocks_with_context@[j]))
+}
+
+/// some modified block of the run declares `affects` (the only blocks an error can come from)
+pub open spec fn has_declaring_block(ctx: ValidationContext) -> bool {
+    exists|f: PathBuf, j: int| ctx.blocks@.contains_key(f) && 0 <= j < ctx.blocks@[f].blocks_with_context@.len()
+        && declares_affects(#[trigger] ctx.blocks@[f].blocks_with_context@[j])
+}
+
+/// The whole Ok-postcondition of V6 as a predicate of the context's MAP VIEW and the result's map view
+/// (no iteration order in sight): C20.
+pub open spec fn v6_ok_post(ctx: ValidationContext, m: Map<PathBuf, Vec<Violation>>) -> bool {
+    &&& forall|f: PathBuf| #[trigger] m.contains_key(f) ==> ctx.blocks@.contains_key(f) && m[f]@.len() > 0
+    &&& forall|f: PathBuf| #[trigger] ctx.blocks@.contains_key(f) ==> list_ok(map_get_or_empty(m, f),
+            file_expected(ctx, f, ctx.blocks@[f], ctx.blocks@[f].blocks_with_context@.len() as int), f, ctx.blocks@[f])
+}
+
+
+// ---- what `file_expected` means (proved): exactly the unsatisfied references, each once ------------------
+/// number of references of block `j`
+pub open spec fn nrefs(fb: FileBlocks, j: int) -> int {
+    split_comma_spec(affects_value(fb.blocks_with_context@[j])).len() as int
+}
+
+pub proof fn lemma_block_expected(ctx: ValidationContext, f: PathBuf, fb: FileBlocks, j: int, n: int)
+    requires n >= 0,
+    ensures
+        forall|o: (int, int)| #[trigger] block_expected(ctx, f, fb, j, n).contains(o)
+            <==> (o.0 == j && 0 <= o.1 < n && unsatisfied(ctx, f, fb.blocks_with_context@[j], o.1)),
+        block_expected(ctx, f, fb, j, n).no_duplicates(),
+    decreases n,
+{
+    let cur = block_expected(ctx, f, fb, j, n);
+    if n > 0 {
+        lemma_block_expected(ctx, f, fb, j, n - 1);
+        let prev = block_expected(ctx, f, fb, j, n - 1);
+        if unsatisfied(ctx, f, fb.blocks_with_context@[j], n - 1) {
+            assert(cur == prev.push((j, n - 1)));
+            assert forall|o: (int, int)| #[trigger] cur.contains(o)
+                <==> (o.0 == j && 0 <= o.1 < n && unsatisfied(ctx, f, fb.blocks_with_context@[j], o.1)) by {
+                if cur.contains(o) {
+                    let k = choose|k: int| 0 <= k < cur.len() && cur[k] == o;
+                    if k < prev.len() { assert(prev[k] == o); assert(prev.contains(o)); }
+                }
+                if o.0 == j && 0 <= o.1 < n && unsatisfied(ctx, f, fb.blocks_with_context@[j], o.1) {
+                    if o.1 == n - 1 {
+                        assert(cur[prev.len() as int] == o);
+                    } else {
+                        assert(prev.contains(o));
+                        let k = choose|k: int| 0 <= k < prev.len() && prev[k] == o;
+                        assert(cur[k] == o);
+                    }
+                }
+            }
+            assert forall|a: int, b: int| 0 <= a < cur.len() && 0 <= b < cur.len() && a != b implies cur[a] != cur[b] by {
+                if a < prev.len() { assert(prev.contains(prev[a])); }
+                if b < prev.len() { assert(prev.contains(prev[b])); }
+            }
+        }
+    } else {
+        assert forall|o: (int, int)| !(#[trigger] cur.contains(o)) by {}
+    }
+}
+
+/// [V6.lemma.expected_is_exactly_the_unsatisfied_references] the expected list of a file holds
+/// (block j, reference i) iff block j is modified, declares `affects`, and its i-th reference is
+/// unsatisfied — and holds it ONCE. With `list_ok` this is "one violation per such triple, none otherwise".
+pub proof fn lemma_file_expected(ctx: ValidationContext, f: PathBuf, fb: FileBlocks, m: int)
+    requires m >= 0,
+    ensures
+        forall|o: (int, int)| #[trigger] file_expected(ctx, f, fb, m).contains(o)
+            <==> (0 <= o.0 < m && declares_affects(fb.blocks_with_context@[o.0]) && 0 <= o.1 < nrefs(fb, o.0)
+                  && unsatisfied(ctx, f, fb.blocks_with_context@[o.0], o.1)),
+        file_expected(ctx, f, fb, m).no_duplicates(),
+    decreases m,
+{
+    let cur = file_expected(ctx, f, fb, m);
+    if m > 0 {
+        lemma_file_expected(ctx, f, fb, m - 1);
+        let prev = file_expected(ctx, f, fb, m - 1);
+        let blk = block_all(ctx, f, fb, m - 1);
+        assert(cur == prev + blk);
+        if declares_affects(fb.blocks_with_context@[m - 1]) {
+            lemma_block_expected(ctx, f, fb, m - 1, nrefs(fb, m - 1));
+        } else {
+            assert forall|o: (int, int)| !(#[trigger] blk.contains(o)) by {}
+        }
+        assert forall|o: (int, int)| #[trigger] cur.contains(o) <==> (prev.contains(o) || blk.contains(o)) by {
+            if cur.contains(o) {
+                let k = choose|k: int| 0 <= k < cur.len() && cur[k] == o;
+                if k < prev.len() { assert(prev[k] == o); } else { assert(blk[k - prev.len()] == o); }
+            }
+            if prev.contains(o) {
+                let k = choose|k: int| 0 <= k < prev.len() && prev[k] == o;
+                assert(cur[k] == o);
+            }
+            if blk.contains(o) {
+                let k = choose|k: int| 0 <= k < blk.len() && blk[k] == o;
+                assert(cur[prev.len() + k] == o);
+            }
+        }
+        assert forall|a: int, b: int| 0 <= a < cur.len() && 0 <= b < cur.len() && a != b implies cur[a] != cur[b] by {
+            if a < prev.len() { assert(prev.contains(prev[a])); } else { assert(blk.contains(blk[a - prev.len()])); }
+            if b < prev.len() { assert(prev.contains(prev[b])); } else { assert(blk.contains(blk[b - prev.len()])); }
+        }
+    } else {
+        assert forall|o: (int, int)| !(#[trigger] cur.contains(o)) by {}
+    }
+}
+
+// ---- C20: the Ok-postcondition leaves no freedom -----------------------------------------------------------
+/// what two diagnostics for the same (block, reference) have in common: everything but the message text
+pub open spec fn same_diagnostic(v1: Violation, v2: Violation) -> bool {
+    &&& v1.range == v2.range && v1.code@ == v2.code@ && v1.severity == v2.severity
+    &&& exists|af: PathBuf, an: Seq<char>| #[trigger] names_reference(v1, af, an) && names_reference(v2, af, an)
+}
+
+/// [V6.lemma.order_independent] Two results that both satisfy V6's Ok-postcondition for the same context
+/// (e.g. two runs with different hash seeds: V6 is proved for an ARBITRARY iteration order of
+/// `&context.blocks`, twice) report the same files and, per file, the same diagnostics in the same order.
+pub proof fn lemma_v6_order_independent(ctx: ValidationContext, m1: Map<PathBuf, Vec<Violation>>, m2: Map<PathBuf, Vec<Violation>>)
+    requires v6_ok_post(ctx, m1), v6_ok_post(ctx, m2),
+    ensures
+        m1.dom() == m2.dom(),
+        forall|f: PathBuf| #[trigger] m1.contains_key(f) ==> m1[f]@.len() == m2[f]@.len(),
+        forall|f: PathBuf, k: int| m1.contains_key(f) && 0 <= k < m1[f]@.len() ==> same_diagnostic(#[trigger] m1[f]@[k], m2[f]@[k]),
+{
+    assert forall|f: PathBuf| m1.contains_key(f) <==> m2.contains_key(f) by {
+        if m1.contains_key(f) { assert(ctx.blocks@.contains_key(f)); }
+        if m2.contains_key(f) { assert(ctx.blocks@.contains_key(f)); }
+    }
+    assert(m1.dom() =~= m2.dom());
+    assert forall|f: PathBuf, k: int| m1.contains_key(f) && 0 <= k < m1[f]@.len() implies same_diagnostic(#[trigger] m1[f]@[k], m2[f]@[k]) by {
+        assert(ctx.blocks@.contains_key(f));
+        let fb = ctx.blocks@[f];
+        let exp = file_expected(ctx, f, fb, fb.blocks_with_context@.len() as int);
+        assert(viol_for(m1[f]@[k], f, fb, exp[k]));
+        assert(viol_for(m2[f]@[k], f, fb, exp[k]));
+    }
+}
+
+/// [V6.lemma.bad_severity_is_err] C13 "an unknown severity on a block that has a violation": if V6 returns
+/// Ok, every modified block with an unsatisfied reference has a parsable severity (contrapositive: an
+/// unknown severity on such a block makes V6 return Err).
+pub proof fn lemma_v6_bad_severity_is_err(ctx: ValidationContext, m: Map<PathBuf, Vec<Violation>>, f: PathBuf, j: int, i: int)
+    requires
+        v6_ok_post(ctx, m),
+        ctx.blocks@.contains_key(f), 0 <= j < ctx.blocks@[f].blocks_with_context@.len(),
+        declares_affects(ctx.blocks@[f].blocks_with_context@[j]), 0 <= i < nrefs(ctx.blocks@[f], j),
+        unsatisfied(ctx, f, ctx.blocks@[f].blocks_with_context@[j], i),
+    ensures
+        severity_spec(ctx.blocks@[f].blocks_with_context@[j].block) is Ok,
+        m.contains_key(f),
+{
+    let fb = ctx.blocks@[f];
+    let exp = file_expected(ctx, f, fb, fb.blocks_with_context@.len() as int);
+    lemma_file_expected(ctx, f, fb, fb.blocks_with_context@.len() as int);
+    assert(exp.contains((j, i)));
+    let k = choose|k: int| 0 <= k < exp.len() && exp[k] == (j, i);
+    assert(viol_for(map_get_or_empty(m, f)[k], f, fb, exp[k]));
+}
+
+// ---- loop-1 bookkeeping: which (file, name) pairs have been indexed so far -------------------------------
+/// some block before position (`e`, `j`) of the iteration order `ents` is a modified block named
+/// `name` of file `p`
+pub open spec fn mod_upto(ents: Seq<(&PathBuf, &FileBlocks)>, e: int, j: int, p: PathBuf, name: Seq<char>) -> bool {
+    exists|e2: int, j2: int| 0 <= e2 < ents.len() && (e2 < e || (e2 == e && j2 < j)) && *ents[e2].0 == p
+        && 0 <= j2 < ents[e2].1.blocks_with_context@.len()
+        && named_modified(#[trigger] ents[e2].1.blocks_with_context@[j2], name)
+}
+
+/// E4: whatever the order, once the entries are exhausted the index is exactly Mod
+pub proof fn lemma_mod_upto_all(ctx: ValidationContext, ents: Seq<(&PathBuf, &FileBlocks)>, p: PathBuf, name: Seq<char>)
+    requires ref_entries_of(ents, ctx.blocks@),
+    ensures mod_upto(ents, ents.len() as int, 0, p, name) <==> in_mod(ctx, p, name),
+{
+    if mod_upto(ents, ents.len() as int, 0, p, name) {
+        let (e2, j2) = choose|e2: int, j2: int| 0 <= e2 < ents.len() && (e2 < ents.len() || (e2 == ents.len() && j2 < 0)) && *ents[e2].0 == p
+            && 0 <= j2 < ents[e2].1.blocks_with_context@.len()
+            && named_modified(#[trigger] ents[e2].1.blocks_with_context@[j2], name);
+        assert(ctx.blocks@.contains_key(*ents[e2].0) && ctx.blocks@[*ents[e2].0] == *ents[e2].1);
+        assert(named_modified(ctx.blocks@[p].blocks_with_context@[j2], name));
+    }
+    if in_mod(ctx, p, name) {
+        let j = choose|j: int| 0 <= j < ctx.blocks@[p].blocks_with_context@.len()
+            && named_modified(#[trigger] ctx.blocks@[p].blocks_with_context@[j], name);
+        let e = choose|e: int| 0 <= e < ents.len() && *(#[trigger] ents[e]).0 == p;
+        assert(ctx.blocks@[*ents[e].0] == *ents[e].1);
+        assert(named_modified(ents[e].1.blocks_with_context@[j], name));
+    }
+}
+
+/// one more block indexed: position (e, j) -> (e, j + 1)
+pub proof fn lemma_mod_step(ents: Seq<(&PathBuf, &FileBlocks)>, e: int, j: int)
+    requires 0 <= e < ents.len(), 0 <= j < ents[e].1.blocks_with_context@.len(),
+    ensures
+        forall|p: PathBuf, name: Seq<char>| #[trigger] mod_upto(ents, e, j + 1, p, name)
+            <==> (mod_upto(ents, e, j, p, name) || (p == *ents[e].0 && named_modified(ents[e].1.blocks_with_context@[j], name))),
+{
+    assert forall|p: PathBuf, name: Seq<char>| #[trigger] mod_upto(ents, e, j + 1, p, name)
+        <==> (mod_upto(ents, e, j, p, name) || (p == *ents[e].0 && named_modified(ents[e].1.blocks_with_context@[j], name))) by {
+        if mod_upto(ents, e, j, p, name) {
+            let (e2, j2) = choose|e2: int, j2: int| 0 <= e2 < ents.len() && (e2 < e || (e2 == e && j2 < j)) && *ents[e2].0 == p
+                && 0 <= j2 < ents[e2].1.blocks_with_context@.len() && named_modified(#[trigger] ents[e2].1.blocks_with_context@[j2], name);
+            assert(named_modified(ents[e2].1.blocks_with_context@[j2], name) && (e2 < e || (e2 == e && j2 < j + 1)));
+        }
+        if p == *ents[e].0 && named_modified(ents[e].1.blocks_with_context@[j], name) {
+            assert(named_modified(ents[e].1.blocks_with_context@[j], name) && (e < e || (e == e && j < j + 1)));
+        }
+    }
+}
+
+impl AffectsValidator {
+#[verifier::loop_isolation(false)]
+//@unit id=V6 file=src/validators/affects.rs fn=<<impl validators::ValidatorSync for AffectsValidator::validate>>
+//@sig rule=E7 was=<<fn validate(&self, context: Arc<validators::ValidationContext>,) -> anyhow::Result<HashMap<PathBuf, Vec<Violation>>>>>
+    fn validate(&self, context: Arc<ValidationContext>) -> (r: anyhow::Result<HashMap<PathBuf, Vec<Violation>>>)
+//@contract
+        ensures
+            // C13: a reference without ':' on a MODIFIED block is an error, wherever the block sits
+            has_malformed_reference(*context) ==> r is Err, // [V6.post.malformed_reference_is_err]
+            // C01: per file, exactly one violation per unsatisfied reference of a modified block that
+            // declares `affects`, none otherwise; stated on map views only (any iteration order, C20)
+            r matches Ok(m) ==> v6_ok_post(*context, m@), // [V6.post.one_violation_per_unsatisfied_reference]
+            // an error is not invented: it needs a modified block that declares `affects`
+            r is Err ==> has_declaring_block(*context), // [V6.post.err_only_from_declaring_block]
+//@edit rule=E19 find=<<let mut named_modified_blocks = HashMap::new()>>
+let mut named_modified_blocks: HashMap<(PathBuf, String), Vec<&BlockWithContext>> = HashMap::new()
+//@edit rule=E19 find=<<let mut violations = HashMap::new()>>
+let mut violations: HashMap<PathBuf, Vec<Violation>> = HashMap::new()
+//@edit rule=ghost before=<<let mut named_modified_blocks>>
+        broadcast use affx::group_affx;
+//@edit rule=E4 find=<<for (file_path, file_blocks) in &context.blocks>>
+        let verif_ents1 = verif_ref_entries(&context.blocks);
+        for (file_path, file_blocks) in it: verif_ents1
+            invariant
+                ref_entries_of(verif_ents1@, context.blocks@),
+                forall|p: PathBuf, s: String| #[trigger] named_modified_blocks@.contains_key((p, s)) // [V6.inv1.index_is_mod_so_far]
+                    <==> mod_upto(verif_ents1@, it.index@ as int, 0, p, s@),
+//@foridx rule=E18 find=<<for block_with_context in &file_blocks.blocks_with_context>> idx=verif_j nth=0 of=2
+                invariant
+                    verif_j <= file_blocks.blocks_with_context@.len(),
+                    0 <= it.index@ < verif_ents1@.len(),
+                    verif_ents1@[it.index@ as int] == (file_path, file_blocks),
+                    forall|p: PathBuf, s: String| #[trigger] named_modified_blocks@.contains_key((p, s)) // [V6.inv1b.index_is_mod_so_far]
+                        <==> mod_upto(verif_ents1@, it.index@ as int, verif_j as int, p, s@),
+                decreases file_blocks.blocks_with_context@.len() - verif_j,
+//@edit rule=ghost after=<<verif_j = verif_j + 1;>>
+                    proof {
+                        lemma_mod_step(verif_ents1@, it.index@ as int, verif_j - 1);
+                    }
+//@edit rule=E5 find=<<$m.entry(($a.clone(), $b.to_string())).or_insert_with(Vec::new).push(>> count=all optional=1
+verif_map_push_k(&mut $m, ($a.clone(), $b.to_string()),
+//@edit rule=ghost before=<<for block_with_context in &file_blocks.blocks_with_context>> nth=0 of=1
+            let ghost v0 = violations@;
+            proof {
+                assert(verif_ents2@[it2.index@ as int] == (modified_block_file_path, file_blocks));
+                assert(!v0.contains_key(*modified_block_file_path)); // [V6.proof.each_file_visited_once]
+            }
+//@edit rule=E4 find=<<for (modified_block_file_path, file_blocks) in &context.blocks>>
+        proof {
+            assert forall|p: PathBuf, s: String| #[trigger] named_modified_blocks@.contains_key((p, s)) <==> in_mod(*context, p, s@) by {
+                lemma_mod_upto_all(*context, verif_ents1@, p, s@);
+            }
+        }
+        let verif_ents2 = verif_ref_entries(&context.blocks);
+        for (modified_block_file_path, file_blocks) in it2: verif_ents2
+            invariant
+                ref_entries_of(verif_ents2@, context.blocks@),
+                forall|p: PathBuf, s: String| #[trigger] named_modified_blocks@.contains_key((p, s)) <==> in_mod(*context, p, s@), // [V6.inv2.index_is_mod]
+                forall|f: PathBuf| #[trigger] violations@.contains_key(f) ==> violations@[f]@.len() > 0 // [V6.inv2.only_visited_files]
+                    && exists|e2: int| 0 <= e2 < it2.index@ && *(#[trigger] verif_ents2@[e2]).0 == f,
+                forall|e2: int| 0 <= e2 < it2.index@ ==> list_ok(map_get_or_empty(violations@, *(#[trigger] verif_ents2@[e2]).0), // [V6.inv2.visited_files_done]
+                    file_expected(*context, *verif_ents2@[e2].0, *verif_ents2@[e2].1, verif_ents2@[e2].1.blocks_with_context@.len() as int),
+                    *verif_ents2@[e2].0, *verif_ents2@[e2].1),
+                forall|e2: int, j2: int| 0 <= e2 < it2.index@ && 0 <= j2 < verif_ents2@[e2].1.blocks_with_context@.len() // [V6.inv2.visited_blocks_well_formed]
+                    && declares_affects(#[trigger] verif_ents2@[e2].1.blocks_with_context@[j2])
+                    ==> !refs_malformed(affects_value(verif_ents2@[e2].1.blocks_with_context@[j2])),
+//@foridx rule=E18 find=<<for block_with_context in &file_blocks.blocks_with_context>> idx=verif_k nth=0 of=1
+                invariant
+                    verif_k <= file_blocks.blocks_with_context@.len(),
+                    0 <= it2.index@ < verif_ents2@.len(),
+                    verif_ents2@[it2.index@ as int] == (modified_block_file_path, file_blocks),
+                    !v0.contains_key(*modified_block_file_path),
+                    forall|k2: PathBuf| k2 != *modified_block_file_path ==> (violations@.contains_key(k2) <==> #[trigger] v0.contains_key(k2)), // [V6.inv2b.other_files_untouched]
+                    forall|k2: PathBuf| k2 != *modified_block_file_path && #[trigger] v0.contains_key(k2) ==> violations@[k2] == v0[k2],
+                    violations@.contains_key(*modified_block_file_path) ==> violations@[*modified_block_file_path]@.len() > 0,
+                    list_ok(map_get_or_empty(violations@, *modified_block_file_path), // [V6.inv2b.file_list_is_expected_so_far]
+                        file_expected(*context, *modified_block_file_path, *file_blocks, verif_k as int), *modified_block_file_path, *file_blocks),
+                    forall|j2: int| 0 <= j2 < verif_k && declares_affects(#[trigger] file_blocks.blocks_with_context@[j2]) // [V6.inv2b.blocks_well_formed_so_far]
+                        ==> !refs_malformed(affects_value(file_blocks.blocks_with_context@[j2])),
+                decreases file_blocks.blocks_with_context@.len() - verif_k,
+//@edit rule=ghost after=<<verif_k = verif_k + 1;>>
+                    proof {
+                        let j = verif_k - 1;
+                        assert(*block_with_context == file_blocks.blocks_with_context@[j]);
+                        assert(context.blocks@[*modified_block_file_path] == *file_blocks);
+                        assert(!declares_affects(file_blocks.blocks_with_context@[j]) ==>
+                            file_expected(*context, *modified_block_file_path, *file_blocks, j + 1) =~= file_expected(*context, *modified_block_file_path, *file_blocks, j));
+                    }
+//@edit rule=E15 find=<<for (affected_file_path, affected_block_name) in affected_blocks>>
+                    proof {
+                        assert(declares_affects(*block_with_context)); // [V6.proof.parsed_block_declares_affects]
+                        assert(affects@ == affects_value(*block_with_context));
+                        assert(!refs_malformed(affects@)); // [V6.proof.parsed_means_well_formed]
+                        assert(block_expected(*context, *modified_block_file_path, *file_blocks, verif_k - 1, 0) =~= Seq::<(int, int)>::empty());
+                        assert(file_expected(*context, *modified_block_file_path, *file_blocks, verif_k - 1) + Seq::<(int, int)>::empty()
+                            =~= file_expected(*context, *modified_block_file_path, *file_blocks, verif_k - 1));
+                    }
+                    for (affected_file_path, affected_block_name) in it3: affected_blocks
+                        invariant
+                            refs_are(affects@, affected_blocks@),
+                            forall|k2: PathBuf| k2 != *modified_block_file_path ==> (violations@.contains_key(k2) <==> #[trigger] v0.contains_key(k2)), // [V6.inv2c.other_files_untouched]
+                            forall|k2: PathBuf| k2 != *modified_block_file_path && #[trigger] v0.contains_key(k2) ==> violations@[k2] == v0[k2],
+                            violations@.contains_key(*modified_block_file_path) ==> violations@[*modified_block_file_path]@.len() > 0,
+                            list_ok(map_get_or_empty(violations@, *modified_block_file_path), // [V6.inv2c.file_list_is_expected_so_far]
+                                file_expected(*context, *modified_block_file_path, *file_blocks, verif_k - 1)
+                                    + block_expected(*context, *modified_block_file_path, *file_blocks, verif_k - 1, it3.index@ as int),
+                                *modified_block_file_path, *file_blocks),
+//@closure rule=E12 find=<<||>> params=<<||>> ret=<<dflt: PathBuf>>
+                            ensures dflt == *modified_block_file_path
+//@edit rule=E5 find=<<$m.entry($k.clone()).or_insert_with(Vec::new).push(>> count=all optional=1
+verif_map_push_k(&mut $m, $k.clone(),
+//@edit rule=ghost before=<<} Ok(violations)>>
+            proof {
+                assert forall|f: PathBuf| #[trigger] violations@.contains_key(f) implies
+                    exists|e2: int| 0 <= e2 < it2.index@ + 1 && *(#[trigger] verif_ents2@[e2]).0 == f by {
+                    if f == *modified_block_file_path {
+                        assert(*verif_ents2@[it2.index@ as int].0 == f);
+                    } else {
+                        assert(v0.contains_key(f));
+                    }
+                }
+            }
+//@edit rule=ghost before=<<Ok(violations)>>
+        proof {
+            assert(v6_ok_post(*context, violations@)); // [V6.proof.all_files_visited]
+            assert(!has_malformed_reference(*context)); // [V6.proof.all_blocks_visited_none_malformed]
+        }
 //@end
 }
 
